@@ -143,6 +143,17 @@ func (b *bess) SendMsgToUPF(
 		return cause
 	}
 
+	if method == upfMsgTypeAdd || method == upfMsgTypeMod {
+		// Refuse the request if the port ranges of a PDR cannot be represented, instead of
+		// silently not installing that PDR.
+		for _, pdr := range pdrs {
+			if _, err := CreatePortRangeCartesianProduct(pdr.appFilter.srcPortRange, pdr.appFilter.dstPortRange); err != nil {
+				logger.BessLog.Errorln(err)
+				return ie.CauseRequestRejected
+			}
+		}
+	}
+
 	ctx, cancel := context.WithTimeout(context.Background(), Timeout)
 	defer cancel()
 
